@@ -118,13 +118,13 @@ func mkNums(specs []NumSpec) []cty.Value {
 // strAlphabet: strings with normalisation and grapheme-cluster hazards.
 var strAlphabet = []string{
 	"", "a", "b", "ab", "a,b",
-	"e\u0301",                 // NFD e + combining acute (normalises to U+00E9)
-	"\u00e9",                  // precomposed
-	"\u1100\u1161",            // Hangul L+V jamo (composes to U+AC00)
-	"\uac00\u11a8",            // LV syllable + T jamo (composes)
-	"\U0001F44D\U0001F3FD",    // thumbs up + skin tone
+	"e\u0301",                    // NFD e + combining acute (normalises to U+00E9)
+	"\u00e9",                     // precomposed
+	"\u1100\u1161",               // Hangul L+V jamo (composes to U+AC00)
+	"\uac00\u11a8",               // LV syllable + T jamo (composes)
+	"\U0001F44D\U0001F3FD",       // thumbs up + skin tone
 	"\U0001F468\u200d\U0001F469", // ZWJ sequence
-	"\U0001F1E9\U0001F1EA",    // regional indicators
+	"\U0001F1E9\U0001F1EA",       // regional indicators
 	"\r\n", "-", ":",
 }
 
@@ -450,7 +450,9 @@ func weakeningsOf(x cty.Value, full bool) []cty.Value {
 		// (value_range.go), so a nullable unknown carrying them is a valid weakening
 		switch {
 		case ty == cty.Number:
-			add(func() cty.Value { return cty.UnknownVal(ty).Refine().NumberRangeLowerBound(cty.NumberIntVal(100), true).NewValue() })
+			add(func() cty.Value {
+				return cty.UnknownVal(ty).Refine().NumberRangeLowerBound(cty.NumberIntVal(100), true).NewValue()
+			})
 			if full {
 				add(func() cty.Value {
 					return cty.UnknownVal(ty).Refine().NumberRangeLowerBound(cty.Zero, false).NumberRangeUpperBound(cty.NumberIntVal(1), false).NewValue()
